@@ -144,7 +144,23 @@ pub fn build(e: &mut Ent, f: &Force) -> (StepCase, Tag) {
 fn finish_case(e: &mut Ent, insn: Insn, er: [u32; 8], ccr: u8, patches: Vec<(u32, Vec<u8>)>, value: u8, bit: u8, addr: Option<u32>, same_reg: bool) -> (StepCase, Tag) {
     let code = encode(&insn);
     let avoid: Vec<u32> = addr.into_iter().collect();
-    let pc = e.code_addr(code.len() as u32, &avoid);
+    let mut pc = e.code_addr(code.len() as u32, &avoid);
+    let (mut patches, mut value) = (patches, value);
+    // self-overlap: now and then the operand byte is one of the instruction's own bytes (the instruction is
+    // fetched completely before its operand is accessed, so it may test or modify itself)
+    if let Some(a) = addr {
+        if e.chance(1, 16) {
+            let k = e.below(code.len() as u32);
+            let cand = a.wrapping_sub(k) & !1;
+            let len = code.len() as u32;
+            let fits = |lo: u32, hi: u32| cand >= lo && cand + len + 2 <= hi + 1;
+            if (fits(RAM_LO, RAM_HI) || fits(DRAM_LO, DRAM_HI)) && a - cand < len {
+                pc = cand;
+                patches.retain(|(pa, _)| *pa != a);
+                value = code[(a - cand) as usize];
+            }
+        }
+    }
     let bus = e.bus_cfg();
     (StepCase { code, pc, er, ccr, patches, bus, irq: None, primer: None }, Tag { insn, value, bit, addr, same_reg })
 }
